@@ -1,5 +1,19 @@
 /-
-C09 — omega/eta solvers (`find_omega*`) and `tth`/`tth2` of xfab.tools and xfab.laue.
+C09 — omega/eta solvers (`find_omega`, `find_omega_general`, `find_omega_quart`, `find_omega_wedge`) and
+`tth`/`tth2` of xfab.tools and xfab.laue.
+
+Structure
+* `om1`, `om2`, `etaOf`, `solverOut`: the common body of `find_omega_general/quart` once the dead
+  `if ω > π` branches (`atan2 ≤ π`) are removed; `Tools_general_unfold`, `Tools_quart_unfold` tie the generated
+  definitions to it by `rfl` with the code's own coefficient expressions (`genA/B/C`, `quaA/B/C`).
+* soundness:    `general_sound`, `quart_sound`, `wedge_sound`, `plain_sound(_scaled)` (+ `laue_*`)
+* completeness: `general_complete`, `quart_complete`, `plain_complete`, `plain_tangent_gap` (finding), `general_isSome`
+* agreement:    `solvers_agree` (general = quart at zero tilt), `wedge_agrees_general`, `plain_agrees_general`
+* two-theta:    `tth_eq`, `tth2_eq`, `tth_eq_tth2` (+ `laue_*`)
+laue.py rescales `g` to `lscale g 2θ = sin θ · g/|g|` and then runs the tools.py code (`Laue_general_eq` etc.).
+
+Hypotheses are the places where Python divides by zero / asserts: `a²+b² ≠ 0` (g ∥ rotation axis or
+`cos wy = 0`), `sin 2θ ≠ 0`, `g ≠ 0`, and for the wedge solver `cos wedge ≠ 0`, `a ≠ 0`, `sin θ > 0`.
 -/
 import XfabVerif.Gen.ToolsReal
 import XfabVerif.Gen.LaueReal
@@ -546,5 +560,834 @@ lemma Laue_quart_eq (g : Fin 3 → ℝ) (twoth wx wy : ℝ) :
   unfold Laue.find_omega_quart
   simp only [atan2_not_gt, if_false]
   rfl
+
+/-! ### `find_omega` (no tilt) -/
+
+/-- the sign-corrected `arccos` used by `find_omega` is `atan2` on the unit circle -/
+lemma plainPick_eq {co so : ℝ} (h : co ^ 2 + so ^ 2 = 1) :
+    (if so < 0 then -(Real.arccos co) else Real.arccos co) = XR.atan2 so co := by
+  have hco1 : -1 ≤ co := by nlinarith [sq_nonneg so]
+  have hco2 : co ≤ 1 := by nlinarith [sq_nonneg so]
+  have hsin : Real.sin (Real.arccos co) = |so| := by
+    rw [Real.sin_arccos, show 1 - co ^ 2 = so ^ 2 by linarith, Real.sqrt_sq_eq_abs]
+  have hpi := Real.pi_pos
+  split_ifs with hneg
+  · have hpos : 0 < so * so := mul_pos_of_neg_of_neg hneg hneg
+    have hlt : -1 < co := by nlinarith
+    have hp : Real.arccos co < Real.pi := Real.arccos_lt_pi.mpr hlt
+    have e := atan2_sin_cos (ω := -Real.arccos co) (by linarith) (by linarith [Real.arccos_nonneg co])
+    rw [Real.sin_neg, Real.cos_neg, hsin, Real.cos_arccos hco1 hco2, abs_of_neg hneg, neg_neg] at e
+    exact e.symm
+  · have hnn : 0 ≤ so := not_lt.mp hneg
+    have e := atan2_sin_cos (ω := Real.arccos co) (by linarith [Real.arccos_nonneg co]) (Real.arccos_le_pi co)
+    rw [hsin, Real.cos_arccos hco1 hco2, abs_of_nonneg hnn] at e
+    exact e.symm
+
+/-- coefficients of `find_omega` as the code computes them -/
+def plA (g : Fin 3 → ℝ) : ℝ := ((g 0) / (Real.sqrt (g ⬝ᵥ g)))
+def plB (g : Fin 3 → ℝ) : ℝ := ((-(g 1)) / (Real.sqrt (g ⬝ᵥ g)))
+def plC (twoth : ℝ) : ℝ := (((Real.cos twoth) - 1) / (Real.sqrt (2 * (1 - (Real.cos twoth)))))
+
+/-- body of `find_omega` as a function of the code's `a`, `b`, `c` -/
+def plainBody (a b c : ℝ) : List ℝ :=
+  let d : ℝ := ((a ^ 2) + (b ^ 2))
+  let sq_d : ℝ := (d - (c ^ 2))
+  if sq_d > (0 : ℝ) then
+    let sq_d_1 : ℝ := (Real.sqrt sq_d)
+    let comega : ℝ := (((a * c) + (b * sq_d_1)) / d)
+    let somega : ℝ := (((b * c) - (a * sq_d_1)) / d)
+    let omega_item : ℝ := (Real.arccos comega)
+    if somega < (0 : ℝ) then
+      let comega_1 : ℝ := (comega - (((2 * b) * sq_d_1) / d))
+      let somega_1 : ℝ := (somega + (((2 * a) * sq_d_1) / d))
+      let omega_item_1 : ℝ := (Real.arccos comega_1)
+      if somega_1 < (0 : ℝ) then
+        [(-omega_item), (-omega_item_1)]
+      else
+        [(-omega_item), omega_item_1]
+    else
+      let comega_1 : ℝ := (comega - (((2 * b) * sq_d_1) / d))
+      let somega_1 : ℝ := (somega + (((2 * a) * sq_d_1) / d))
+      let omega_item_1 : ℝ := (Real.arccos comega_1)
+      if somega_1 < (0 : ℝ) then
+        [omega_item, (-omega_item_1)]
+      else
+        [omega_item, omega_item_1]
+  else
+    []
+
+lemma Tools_plain_body (g : Fin 3 → ℝ) (twoth : ℝ) :
+    Tools.find_omega g twoth = plainBody (plA g) (plB g) (plC twoth) := rfl
+
+lemma plainBody_eq (a b c : ℝ) :
+    plainBody a b c =
+      if a * a + b * b - c * c > 0 then [om1 a b c, om2 a b c] else [] := by
+  unfold plainBody
+  simp only [sq]
+  by_cases hsq : a * a + b * b - c * c > 0
+  · rw [if_pos hsq, if_pos hsq]
+    have hd : a * a + b * b ≠ 0 := by nlinarith [mul_self_nonneg c]
+    have hd' : a ^ 2 + b ^ 2 ≠ 0 := by rw [sq, sq]; exact hd
+    have hS : Real.sqrt (a * a + b * b - c * c) ^ 2 = a * a + b * b - c * c := Real.sq_sqrt hsq.le
+    unfold om1 om2
+    generalize Real.sqrt (a * a + b * b - c * c) = S at *
+    have hc1 : (a * c + b * S) / (a * a + b * b) - 2 * b * S / (a * a + b * b) = (a * c + -(b * S)) / (a * a + b * b) := by
+      field_simp; ring
+    have hs1 : (b * c - a * S) / (a * a + b * b) + 2 * a * S / (a * a + b * b) = (b * c + a * S) / (a * a + b * b) := by
+      field_simp; ring
+    have hs0 : (b * c + -(a * S)) / (a * a + b * b) = (b * c - a * S) / (a * a + b * b) := by ring
+    rw [hc1, hs1, hs0]
+    have hu1 : ((a * c + b * S) / (a * a + b * b)) ^ 2 + ((b * c - a * S) / (a * a + b * b)) ^ 2 = 1 := by
+      field_simp
+      linear_combination (a * a + b * b) * hS
+    have hu2 : ((a * c + -(b * S)) / (a * a + b * b)) ^ 2 + ((b * c + a * S) / (a * a + b * b)) ^ 2 = 1 := by
+      field_simp
+      linear_combination (a * a + b * b) * hS
+    rw [← plainPick_eq hu1, ← plainPick_eq hu2]
+    split_ifs <;> rfl
+  · rw [if_neg hsq, if_neg hsq]
+
+lemma Rz_row0 (g : Fin 3 → ℝ) (ω : ℝ) :
+    (Spec.Rz ω *ᵥ g) 0 = g 0 * Real.cos ω - g 1 * Real.sin ω := by
+  simp [Spec.Rz, Matrix.mulVec, dotProduct, Fin.sum_univ_three]; ring
+
+lemma cos_eq_one_sub (x : ℝ) : Real.cos x = 1 - 2 * Real.sin (x / 2) ^ 2 := by
+  have h2 := Real.cos_two_mul (x / 2)
+  rw [show 2 * (x / 2) = x by ring] at h2
+  rw [h2]; nlinarith [Real.sin_sq_add_cos_sq (x / 2)]
+
+lemma plC_eq (twoth : ℝ) (hθ : Real.sin (twoth / 2) ≠ 0) : plC twoth = -|Real.sin (twoth / 2)| := by
+  unfold plC
+  rw [cos_eq_one_sub twoth]
+  have h1 : 2 * (1 - (1 - 2 * Real.sin (twoth / 2) ^ 2)) = (2 * |Real.sin (twoth / 2)|) ^ 2 := by
+    rw [mul_pow, sq_abs]; ring
+  have habs : |Real.sin (twoth / 2)| ≠ 0 := abs_ne_zero.mpr hθ
+  rw [h1, Real.sqrt_sq (by positivity)]
+  field_simp
+  rw [← sq_abs (Real.sin (twoth / 2))]; ring
+
+lemma plain_row (g : Fin 3 → ℝ) (twoth ω : ℝ) (hg : g ⬝ᵥ g ≠ 0) (hθ : Real.sin (twoth / 2) ≠ 0) :
+    (Spec.Rz ω *ᵥ g) 0 = -|Real.sin (twoth / 2)| * Real.sqrt (g ⬝ᵥ g) ↔
+      plA g * Real.cos ω + plB g * Real.sin ω = plC twoth := by
+  have hG : Real.sqrt (g ⬝ᵥ g) ≠ 0 := fun h0 => hg ((Real.sqrt_eq_zero (dot_self_nonneg g)).mp h0)
+  rw [Rz_row0, plC_eq twoth hθ]
+  unfold plA plB
+  constructor
+  · intro h; field_simp; linarith
+  · intro h; field_simp at h; linarith
+
+/-- Soundness of `Tools.find_omega` (clause 2 of C09, no tilt; matrix `Rz(ω)` = `form_omega_mat ω`): every
+returned `ω` lies in `(-π, π]` and rotates `g` so that its x-component is `-|sin θ|·|g|` (the code
+normalises by `|g|`; for `|g| = sin θ > 0` this is `-sin²θ`, see `plain_sound_scaled`).
+Guards: `g ≠ 0` and `sin θ ≠ 0` (Python divides by `|g|` and by `sqrt(2(1-cos 2θ))`). -/
+theorem plain_sound (g : Fin 3 → ℝ) (twoth : ℝ) (hg : g ⬝ᵥ g ≠ 0) (hθ : Real.sin (twoth / 2) ≠ 0) :
+    ∀ ω ∈ Tools.find_omega g twoth,
+      (Spec.Rz ω *ᵥ g) 0 = -|Real.sin (twoth / 2)| * Real.sqrt (g ⬝ᵥ g) ∧ -Real.pi < ω ∧ ω ≤ Real.pi := by
+  intro ω hω
+  rw [Tools_plain_body, plainBody_eq] at hω
+  split_ifs at hω with hsq
+  · have hd : plA g * plA g + plB g * plB g ≠ 0 := by nlinarith [mul_self_nonneg (plC twoth)]
+    simp only [List.mem_cons, List.not_mem_nil, or_false] at hω
+    rcases hω with rfl | rfl
+    · exact ⟨(plain_row g twoth _ hg hθ).mpr (om1_solves hd hsq.le), neg_pi_lt_atan2 _ _, atan2_le_pi _ _⟩
+    · exact ⟨(plain_row g twoth _ hg hθ).mpr (om2_solves hd hsq.le), neg_pi_lt_atan2 _ _, atan2_le_pi _ _⟩
+  · simp at hω
+
+/-- `plain_sound` for a scattering vector already scaled to `|g| = sin θ > 0`: x-component `-sin²θ`. -/
+theorem plain_sound_scaled (g : Fin 3 → ℝ) (twoth : ℝ) (hpos : 0 < Real.sin (twoth / 2))
+    (hg : g ⬝ᵥ g = Real.sin (twoth / 2) ^ 2) :
+    ∀ ω ∈ Tools.find_omega g twoth,
+      (Tools.form_omega_mat ω *ᵥ g) 0 = -Real.sin (twoth / 2) ^ 2 ∧ -Real.pi < ω ∧ ω ≤ Real.pi := by
+  intro ω hω
+  have hg0 : g ⬝ᵥ g ≠ 0 := by rw [hg]; positivity
+  obtain ⟨h0, h1, h2⟩ := plain_sound g twoth hg0 hpos.ne' ω hω
+  refine ⟨?_, h1, h2⟩
+  change (Spec.Rz ω *ᵥ g) 0 = _
+  rw [h0, hg, Real.sqrt_sq hpos.le, abs_of_pos hpos]; ring
+
+/-- Completeness of `Tools.find_omega` when the discriminant `a²+b²-c²` is strictly positive: the list
+has exactly two entries and contains every `ω ∈ (-π, π]` satisfying the diffraction condition; when it
+is `≤ 0` the list is empty. -/
+theorem plain_complete (g : Fin 3 → ℝ) (twoth : ℝ) (hg : g ⬝ᵥ g ≠ 0) (hθ : Real.sin (twoth / 2) ≠ 0) :
+    (plA g * plA g + plB g * plB g - plC twoth * plC twoth > 0 →
+      (Tools.find_omega g twoth).length = 2 ∧
+      ∀ ω, -Real.pi < ω → ω ≤ Real.pi →
+        (Spec.Rz ω *ᵥ g) 0 = -|Real.sin (twoth / 2)| * Real.sqrt (g ⬝ᵥ g) → ω ∈ Tools.find_omega g twoth) ∧
+    (plA g * plA g + plB g * plB g - plC twoth * plC twoth < 0 →
+      Tools.find_omega g twoth = [] ∧
+      ∀ ω, (Spec.Rz ω *ᵥ g) 0 ≠ -|Real.sin (twoth / 2)| * Real.sqrt (g ⬝ᵥ g)) := by
+  rw [Tools_plain_body, plainBody_eq]
+  constructor
+  · intro hsq
+    rw [if_pos hsq]
+    have hd : plA g * plA g + plB g * plB g ≠ 0 := by nlinarith [mul_self_nonneg (plC twoth)]
+    refine ⟨rfl, ?_⟩
+    intro ω h1 h2 hω
+    rcases (quad_complete hd h1 h2 ((plain_row g twoth ω hg hθ).mp hω)).2 with e | e <;> simp [e]
+  · intro hsq
+    rw [if_neg (by linarith)]
+    refine ⟨rfl, ?_⟩
+    intro ω hω
+    have heq := (plain_row g twoth ω hg hθ).mp hω
+    have hsc := Real.sin_sq_add_cos_sq ω
+    have : (plB g * Real.cos ω - plA g * Real.sin ω) * (plB g * Real.cos ω - plA g * Real.sin ω) =
+        plA g * plA g + plB g * plB g - plC twoth * plC twoth := by
+      rw [← heq]; linear_combination (plA g * plA g + plB g * plB g) * hsc
+    nlinarith [mul_self_nonneg (plB g * Real.cos ω - plA g * Real.sin ω)]
+
+/-- FINDING (measure-zero gap): at the tangent case `a²+b²-c² = 0` the diffraction condition has a
+(double) solution, but `find_omega` tests `sq_d > 0` and returns nothing, whereas
+`find_omega_general` tests `d < 0` and returns the double root twice. -/
+theorem plain_tangent_gap (g : Fin 3 → ℝ) (twoth : ℝ) (hg : g ⬝ᵥ g ≠ 0) (hθ : Real.sin (twoth / 2) ≠ 0)
+    (hd : plA g * plA g + plB g * plB g ≠ 0)
+    (h0 : plA g * plA g + plB g * plB g - plC twoth * plC twoth = 0) :
+    Tools.find_omega g twoth = [] ∧
+    ∃ ω, -Real.pi < ω ∧ ω ≤ Real.pi ∧
+      (Spec.Rz ω *ᵥ g) 0 = -|Real.sin (twoth / 2)| * Real.sqrt (g ⬝ᵥ g) := by
+  rw [Tools_plain_body, plainBody_eq, if_neg (by rw [h0]; exact lt_irrefl 0)]
+  exact ⟨rfl, om1 (plA g) (plB g) (plC twoth), neg_pi_lt_atan2 _ _, atan2_le_pi _ _,
+    (plain_row g twoth _ hg hθ).mpr (om1_solves hd h0.ge)⟩
+
+/-! ### laue.py versions -/
+
+lemma Laue_plain_eq (g : Fin 3 → ℝ) (twoth : ℝ) :
+    Laue.find_omega g twoth = Tools.find_omega (lscale g twoth) twoth := rfl
+
+lemma sin_half_ne_zero {twoth : ℝ} (hs : Real.sin twoth ≠ 0) : Real.sin (twoth / 2) ≠ 0 := by
+  intro h0
+  apply hs
+  have : Real.sin twoth = 2 * Real.sin (twoth / 2) * Real.cos (twoth / 2) := by
+    rw [← Real.sin_two_mul]; congr 1; ring
+  rw [this, h0]; ring
+
+lemma lscale_hab {g : Fin 3 → ℝ} {twoth wy : ℝ} (hg : g ⬝ᵥ g ≠ 0) (hs : Real.sin twoth ≠ 0)
+    (hab : (g 0 * Real.cos wy) ^ 2 + (g 1 * Real.cos wy) ^ 2 ≠ 0) :
+    (lscale g twoth 0 * Real.cos wy) ^ 2 + (lscale g twoth 1 * Real.cos wy) ^ 2 ≠ 0 := by
+  have hG : Real.sqrt (g ⬝ᵥ g) ≠ 0 := fun h0 => hg ((Real.sqrt_eq_zero (dot_self_nonneg g)).mp h0)
+  have hh := sin_half_ne_zero hs
+  rw [lscale_apply, lscale_apply]
+  have hk : ((Real.sqrt (g ⬝ᵥ g))⁻¹ * Real.sin (twoth / 2)) ^ 2 ≠ 0 :=
+    pow_ne_zero 2 (mul_ne_zero (inv_ne_zero hG) hh)
+  intro h0
+  apply mul_ne_zero hk hab
+  rw [← h0]; ring
+
+/-- Soundness of `Laue.find_omega_general` (clause 1 of C09, laue.py): laue.py first rescales `g` to
+`gs = sin θ · g/|g|` (`C09.lscale`); every returned `(ω, η)` rotates `gs` with laue.py's own
+`form_omega_mat_general ω wx wy` onto `(-sin²θ, -sin 2θ sin η / 2, sin 2θ cos η / 2)`, `ω ∈ (-π, π]`.
+Guards: `g ≠ 0`, `sin 2θ ≠ 0`, and `a² + b² ≠ 0` (i.e. `g ∦ z`, `cos wy ≠ 0`). -/
+theorem laue_general_sound (g : Fin 3 → ℝ) (twoth wx wy : ℝ) (oms ets : List ℝ)
+    (hg : g ⬝ᵥ g ≠ 0) (hs : Real.sin twoth ≠ 0)
+    (hab : (g 0 * Real.cos wy) ^ 2 + (g 1 * Real.cos wy) ^ 2 ≠ 0)
+    (h : Laue.find_omega_general g twoth wx wy = some (oms, ets)) :
+    oms.length = ets.length ∧
+    ∀ (i : ℕ) (h1 : i < oms.length) (h2 : i < ets.length),
+      (Laue.form_omega_mat_general (oms[i]) wx wy *ᵥ lscale g twoth) 0 = -Real.sin (twoth / 2) ^ 2 ∧
+      (Laue.form_omega_mat_general (oms[i]) wx wy *ᵥ lscale g twoth) 1 = -Real.sin twoth * Real.sin (ets[i]) / 2 ∧
+      (Laue.form_omega_mat_general (oms[i]) wx wy *ᵥ lscale g twoth) 2 = Real.sin twoth * Real.cos (ets[i]) / 2 ∧
+      -Real.pi < oms[i] ∧ oms[i] ≤ Real.pi := by
+  rw [Laue_general_eq] at h
+  exact general_sound (lscale g twoth) twoth wx wy oms ets (lscale_norm g twoth hg) hs
+    (lscale_hab hg hs hab) h
+
+/-- Soundness of `Laue.find_omega_quart` (clause 2 of C09, laue.py), matrix
+`Laue.quart_to_omega (ω·180/π) wx wy`, on the rescaled vector `lscale g twoth`. -/
+theorem laue_quart_sound (g : Fin 3 → ℝ) (twoth wx wy : ℝ) (oms ets : List ℝ)
+    (hg : g ⬝ᵥ g ≠ 0) (hs : Real.sin twoth ≠ 0)
+    (hab : quaA (lscale g twoth) wx wy * quaA (lscale g twoth) wx wy +
+      quaB (lscale g twoth) wx wy * quaB (lscale g twoth) wx wy ≠ 0)
+    (h : Laue.find_omega_quart g twoth wx wy = some (oms, ets)) :
+    oms.length = ets.length ∧
+    ∀ (i : ℕ) (h1 : i < oms.length) (h2 : i < ets.length),
+      (Laue.quart_to_omega ((oms[i] * 180) / Real.pi) wx wy *ᵥ lscale g twoth) 0 = -Real.sin (twoth / 2) ^ 2 ∧
+      (Laue.quart_to_omega ((oms[i] * 180) / Real.pi) wx wy *ᵥ lscale g twoth) 1 =
+        -Real.sin twoth * Real.sin (ets[i]) / 2 ∧
+      (Laue.quart_to_omega ((oms[i] * 180) / Real.pi) wx wy *ᵥ lscale g twoth) 2 =
+        Real.sin twoth * Real.cos (ets[i]) / 2 ∧
+      -Real.pi < oms[i] ∧ oms[i] ≤ Real.pi := by
+  rw [Laue_quart_eq] at h
+  exact quart_sound (lscale g twoth) twoth wx wy oms ets (lscale_norm g twoth hg) hs hab h
+
+/-- Completeness of `Laue.find_omega_general` (clause 3 of C09, laue.py), for the rescaled vector. -/
+theorem laue_general_complete (g : Fin 3 → ℝ) (twoth wx wy : ℝ) (oms ets : List ℝ)
+    (hg : g ⬝ᵥ g ≠ 0) (hs : Real.sin twoth ≠ 0)
+    (hab : (g 0 * Real.cos wy) ^ 2 + (g 1 * Real.cos wy) ^ 2 ≠ 0)
+    (h : Laue.find_omega_general g twoth wx wy = some (oms, ets)) :
+    (∀ ω, -Real.pi < ω → ω ≤ Real.pi →
+      (Laue.form_omega_mat_general ω wx wy *ᵥ lscale g twoth) 0 = -(lscale g twoth ⬝ᵥ lscale g twoth) →
+        ω ∈ oms) ∧
+    ((∃ ω, (Laue.form_omega_mat_general ω wx wy *ᵥ lscale g twoth) 0 = -(lscale g twoth ⬝ᵥ lscale g twoth)) →
+      oms.length = 2 ∧ ets.length = 2) ∧
+    ((¬ ∃ ω, (Laue.form_omega_mat_general ω wx wy *ᵥ lscale g twoth) 0 = -(lscale g twoth ⬝ᵥ lscale g twoth)) →
+      oms = [] ∧ ets = []) := by
+  rw [Laue_general_eq] at h
+  obtain ⟨h1, h2, h3, _⟩ := general_complete (lscale g twoth) twoth wx wy oms ets (lscale_hab hg hs hab) h
+  exact ⟨h1, h2, h3⟩
+
+/-- Soundness of `Laue.find_omega` (clause 2, laue.py, no tilt): after laue.py's rescaling to
+`gs = sin θ · g/|g|` every returned `ω ∈ (-π, π]` gives `(Rz(ω) gs)₀ = -sin²θ` (for `sin θ > 0`). -/
+theorem laue_plain_sound (g : Fin 3 → ℝ) (twoth : ℝ) (hg : g ⬝ᵥ g ≠ 0) (hpos : 0 < Real.sin (twoth / 2)) :
+    ∀ ω ∈ Laue.find_omega g twoth,
+      (Laue.form_omega_mat ω *ᵥ lscale g twoth) 0 = -Real.sin (twoth / 2) ^ 2 ∧ -Real.pi < ω ∧ ω ≤ Real.pi := by
+  rw [Laue_plain_eq]
+  exact plain_sound_scaled (lscale g twoth) twoth hpos (lscale_norm g twoth hg)
+
+/-- laue.py's solvers do return (their `assert` passes) for every non-zero `g`. -/
+theorem laue_general_isSome (g : Fin 3 → ℝ) (twoth wx wy : ℝ) (hg : g ⬝ᵥ g ≠ 0) :
+    (Laue.find_omega_general g twoth wx wy).isSome ∧ (Laue.find_omega_quart g twoth wx wy).isSome := by
+  rw [Laue_general_eq, Laue_quart_eq]
+  exact general_isSome (lscale g twoth) twoth wx wy (lscale_norm g twoth hg)
+
+/-! ### `find_omega_wedge` -/
+
+/-- `coseta` of `find_omega_wedge` as a function of the normalised vector `n = g/|g|` -/
+def wedgeCe (n : Fin 3 → ℝ) (twoth wedge : ℝ) : ℝ :=
+  (((((n 2) * (Real.sqrt ((-2 : ℝ) * ((Real.cos twoth) - 1)))) + ((Real.sin wedge) * ((Real.cos twoth) - 1))) / (Real.cos wedge)) / (Real.sin twoth))
+
+/-- the coefficient `a` of `find_omega_wedge` -/
+def wedgeA (ce twoth wedge : ℝ) : ℝ :=
+  (((Real.cos wedge) * ((Real.cos twoth) - 1)) + (((Real.sin wedge) * (Real.sin twoth)) * ce))
+
+/-- the omega of `find_omega_wedge` for given `a`, `b` -/
+def wedgeOm (n : Fin 3 → ℝ) (a b : ℝ) : ℝ :=
+  XR.atan2 (((b * (n 0)) - (a * (n 1))) / ((a * a) + (b * b)))
+    (((n 0) - (b * (((b * (n 0)) - (a * (n 1))) / ((a * a) + (b * b))))) / a)
+
+lemma Tools_wedge_unfold (g : Fin 3 → ℝ) (twoth wedge : ℝ) :
+    Tools.find_omega_wedge g twoth wedge =
+      if |wedgeCe (((Real.sqrt (g ⬝ᵥ g)))⁻¹ • g) twoth wedge| > 1 then ([], [])
+      else
+        ([wedgeOm (((Real.sqrt (g ⬝ᵥ g)))⁻¹ • g)
+            (wedgeA (wedgeCe (((Real.sqrt (g ⬝ᵥ g)))⁻¹ • g) twoth wedge) twoth wedge)
+            ((-(Real.sin twoth)) * (Real.sin (Real.arccos (wedgeCe (((Real.sqrt (g ⬝ᵥ g)))⁻¹ • g) twoth wedge)))),
+          wedgeOm (((Real.sqrt (g ⬝ᵥ g)))⁻¹ • g)
+            (wedgeA (wedgeCe (((Real.sqrt (g ⬝ᵥ g)))⁻¹ • g) twoth wedge) twoth wedge)
+            ((-(Real.sin twoth)) * (Real.sin (-(Real.arccos (wedgeCe (((Real.sqrt (g ⬝ᵥ g)))⁻¹ • g) twoth wedge)))))],
+         [Real.arccos (wedgeCe (((Real.sqrt (g ⬝ᵥ g)))⁻¹ • g) twoth wedge),
+          -(Real.arccos (wedgeCe (((Real.sqrt (g ⬝ᵥ g)))⁻¹ • g) twoth wedge))]) := by
+  unfold Tools.find_omega_wedge
+  simp only [atan2_not_gt, if_false]
+  rfl
+
+lemma Laue_wedge_eq (g : Fin 3 → ℝ) (twoth wedge : ℝ) :
+    Laue.find_omega_wedge g twoth wedge = Tools.find_omega_wedge g twoth wedge := rfl
+
+lemma wedge_alg {n0 n1 n2 s k sw cw ce se a b so co : ℝ}
+    (hn : n0 ^ 2 + n1 ^ 2 + n2 ^ 2 = 1) (hsk : s ^ 2 + k ^ 2 = 1) (hw : sw ^ 2 + cw ^ 2 = 1)
+    (he : se ^ 2 + ce ^ 2 = 1) (hs : 0 < s) (hk : k ≠ 0) (hcw : cw ≠ 0)
+    (hce : ce = ((n2 * (2 * s) + sw * (-2 * s ^ 2)) / cw) / (2 * s * k))
+    (ha : a = cw * (-2 * s ^ 2) + sw * (2 * s * k) * ce) (hb : b = -(2 * s * k) * se) (ha0 : a ≠ 0)
+    (hso : so = (b * n0 - a * n1) / (a * a + b * b)) (hco : co = (n0 - b * so) / a) :
+    co ^ 2 + so ^ 2 = (1 / (2 * s)) ^ 2 ∧
+    co / (1 / (2 * s)) * n0 - so / (1 / (2 * s)) * n1 = a / (2 * s) ∧
+    so / (1 / (2 * s)) * n0 + co / (1 / (2 * s)) * n1 = b / (2 * s) ∧
+    n2 = cw * k * ce + s * sw := by
+  have hs0 : s ≠ 0 := hs.ne'
+  have hA : a = 2 * s * (-s * cw + sw * k * ce) := by rw [ha]; ring
+  have hB : b = 2 * s * (-k * se) := by rw [hb]; ring
+  have hn2 : n2 = cw * k * ce + s * sw := by rw [hce]; field_simp; ring
+  set A := -s * cw + sw * k * ce with hAdef
+  set B := -k * se with hBdef
+  have hρ : A ^ 2 + B ^ 2 = n0 ^ 2 + n1 ^ 2 := by
+    rw [hn2] at hn
+    linear_combination (s ^ 2 + k ^ 2 * ce ^ 2) * hw + k ^ 2 * he + hsk - hn
+  have hA0 : A ≠ 0 := by
+    intro h0; apply ha0; rw [hA, h0]; ring
+  have hρ0 : n0 ^ 2 + n1 ^ 2 ≠ 0 := by
+    rw [← hρ]
+    have : 0 < A ^ 2 := by positivity
+    nlinarith [sq_nonneg B]
+  have hden : a * a + b * b = 4 * s ^ 2 * (n0 ^ 2 + n1 ^ 2) := by
+    rw [hA, hB]; linear_combination 4 * s ^ 2 * hρ
+  have hso' : so = (B * n0 - A * n1) / (2 * s * (n0 ^ 2 + n1 ^ 2)) := by
+    rw [hso, hden, hA, hB]; field_simp; ring
+  have hco' : co = (A * n0 + B * n1) / (2 * s * (n0 ^ 2 + n1 ^ 2)) := by
+    rw [hco, hso', hA, hB]; field_simp
+    linear_combination (-n0) * hρ
+  refine ⟨?_, ?_, ?_, hn2⟩
+  · rw [hco', hso']; field_simp
+    linear_combination (n0 ^ 2 + n1 ^ 2) * hρ
+  · rw [hco', hso', hA]; field_simp; ring
+  · rw [hco', hso', hB]; field_simp; ring
+
+lemma wedge_rows (w ω : ℝ) (v : Fin 3 → ℝ) :
+    ((Spec.Ry (-w) * Spec.Rz ω) *ᵥ v) 0 =
+      Real.cos w * (Real.cos ω * v 0 - Real.sin ω * v 1) - Real.sin w * v 2 ∧
+    ((Spec.Ry (-w) * Spec.Rz ω) *ᵥ v) 1 = Real.sin ω * v 0 + Real.cos ω * v 1 ∧
+    ((Spec.Ry (-w) * Spec.Rz ω) *ᵥ v) 2 =
+      Real.sin w * (Real.cos ω * v 0 - Real.sin ω * v 1) + Real.cos w * v 2 := by
+  refine ⟨?_, ?_, ?_⟩ <;>
+    simp [Spec.Ry, Spec.Rz, Matrix.mulVec, dotProduct, Fin.sum_univ_three, Matrix.mul_apply] <;> ring
+
+/-- core of `find_omega_wedge`: for a unit vector `n`, `η` with `cos η = coseta`, `b = -sin 2θ sin η`
+and the code's `a ≠ 0`, the code's `ω` solves the diffraction condition for `sin θ · n`
+under `Ry(-wedge) · Rz(ω)`. -/
+lemma wedge_core {n : Fin 3 → ℝ} {twoth wedge η : ℝ} (hn : n ⬝ᵥ n = 1)
+    (hpos : 0 < Real.sin (twoth / 2)) (hs : Real.sin twoth ≠ 0) (hcw : Real.cos wedge ≠ 0)
+    (hη : Real.cos η = wedgeCe n twoth wedge)
+    (ha0 : wedgeA (wedgeCe n twoth wedge) twoth wedge ≠ 0) :
+    Solves (Spec.Ry (-wedge) * Spec.Rz (wedgeOm n (wedgeA (wedgeCe n twoth wedge) twoth wedge)
+        ((-(Real.sin twoth)) * (Real.sin η))))
+      (Real.sin (twoth / 2) • n) twoth
+      (wedgeOm n (wedgeA (wedgeCe n twoth wedge) twoth wedge) ((-(Real.sin twoth)) * (Real.sin η))) η := by
+  have hS : Real.sin twoth = 2 * Real.sin (twoth / 2) * Real.cos (twoth / 2) := by
+    rw [← Real.sin_two_mul]; congr 1; ring
+  have hcf : Real.cos twoth - 1 = -2 * Real.sin (twoth / 2) ^ 2 := by
+    rw [cos_eq_one_sub twoth]; ring
+  have hsk := Real.sin_sq_add_cos_sq (twoth / 2)
+  have hw := Real.sin_sq_add_cos_sq wedge
+  have he := Real.sin_sq_add_cos_sq η
+  have hk : Real.cos (twoth / 2) ≠ 0 := by
+    intro h0; apply hs; rw [hS, h0]; ring
+  have hL : Real.sqrt ((-2 : ℝ) * ((Real.cos twoth) - 1)) = 2 * Real.sin (twoth / 2) := by
+    rw [hcf, show (-2 : ℝ) * (-2 * Real.sin (twoth / 2) ^ 2) = (2 * Real.sin (twoth / 2)) ^ 2 by ring]
+    exact Real.sqrt_sq (by positivity)
+  have hn' : n 0 ^ 2 + n 1 ^ 2 + n 2 ^ 2 = 1 := by
+    rw [← hn]; simp only [dotProduct, Fin.sum_univ_three]; ring
+  have hce : Real.cos η = ((n 2 * (2 * Real.sin (twoth / 2)) + Real.sin wedge * (-2 * Real.sin (twoth / 2) ^ 2)) /
+      Real.cos wedge) / (2 * Real.sin (twoth / 2) * Real.cos (twoth / 2)) := by
+    rw [hη]; unfold wedgeCe; rw [hL, hcf, hS]
+  have ha : wedgeA (wedgeCe n twoth wedge) twoth wedge =
+      Real.cos wedge * (-2 * Real.sin (twoth / 2) ^ 2) +
+        Real.sin wedge * (2 * Real.sin (twoth / 2) * Real.cos (twoth / 2)) * Real.cos η := by
+    rw [hη]; unfold wedgeA; rw [hcf, hS]
+  have hb : (-(Real.sin twoth)) * (Real.sin η) =
+      -(2 * Real.sin (twoth / 2) * Real.cos (twoth / 2)) * Real.sin η := by rw [hS]
+  obtain ⟨h1, h2, h3, h4⟩ := wedge_alg hn' hsk hw he hpos hk hcw hce ha hb ha0 rfl rfl
+  have hr : (0 : ℝ) < 1 / (2 * Real.sin (twoth / 2)) := by positivity
+  have hcos := cos_atan2_scaled hr h1
+  have hsin := sin_atan2_scaled hr h1
+  obtain ⟨r0, r1, r2⟩ := wedge_rows wedge
+    (wedgeOm n (wedgeA (wedgeCe n twoth wedge) twoth wedge) ((-(Real.sin twoth)) * (Real.sin η)))
+    (Real.sin (twoth / 2) • n)
+  unfold Solves
+  rw [r0, r1, r2]
+  unfold wedgeOm
+  rw [hcos, hsin]
+  simp only [Pi.smul_apply, smul_eq_mul]
+  have hs0 : Real.sin (twoth / 2) ≠ 0 := hpos.ne'
+  have hhalf : Real.sin (twoth / 2) * (wedgeA (wedgeCe n twoth wedge) twoth wedge / (2 * Real.sin (twoth / 2))) =
+      wedgeA (wedgeCe n twoth wedge) twoth wedge / 2 := by field_simp
+  refine ⟨?_, ?_, ?_, neg_pi_lt_atan2 _ _, atan2_le_pi _ _⟩
+  · have e : Real.cos wedge * (Real.sin (twoth / 2) * (wedgeA (wedgeCe n twoth wedge) twoth wedge / (2 * Real.sin (twoth / 2))))
+        - Real.sin wedge * (Real.sin (twoth / 2) * n 2) = -Real.sin (twoth / 2) ^ 2 := by
+      rw [hhalf, ha, h4]
+      linear_combination (-Real.sin (twoth / 2) ^ 2) * hw
+    rw [← e, ← h2]; ring
+  · have e : Real.sin (twoth / 2) * ((-(Real.sin twoth)) * (Real.sin η) / (2 * Real.sin (twoth / 2))) =
+        -Real.sin twoth * Real.sin η / 2 := by
+      field_simp
+    rw [← e, ← h3]; ring
+  · have e : Real.sin wedge * (Real.sin (twoth / 2) * (wedgeA (wedgeCe n twoth wedge) twoth wedge / (2 * Real.sin (twoth / 2))))
+        + Real.cos wedge * (Real.sin (twoth / 2) * n 2) = Real.sin twoth * Real.cos η / 2 := by
+      rw [hhalf, ha, h4, hS]
+      linear_combination (Real.sin (twoth / 2) * Real.cos (twoth / 2) * Real.cos η) * hw
+    rw [← e, ← h2]; ring
+
+lemma unit_norm (g : Fin 3 → ℝ) (hg : g ⬝ᵥ g ≠ 0) :
+    ((Real.sqrt (g ⬝ᵥ g))⁻¹ • g) ⬝ᵥ ((Real.sqrt (g ⬝ᵥ g))⁻¹ • g) = 1 := by
+  have hnn := dot_self_nonneg g
+  have hS : Real.sqrt (g ⬝ᵥ g) ^ 2 = g ⬝ᵥ g := Real.sq_sqrt hnn
+  have hs : Real.sqrt (g ⬝ᵥ g) ≠ 0 := fun h0 => hg ((Real.sqrt_eq_zero hnn).mp h0)
+  rw [dotProduct_smul, smul_dotProduct]
+  simp only [smul_eq_mul]
+  generalize Real.sqrt (g ⬝ᵥ g) = S at *
+  rw [← hS]
+  field_simp
+
+lemma lscale_eq_smul_unit (g : Fin 3 → ℝ) (twoth : ℝ) :
+    lscale g twoth = Real.sin (twoth / 2) • ((Real.sqrt (g ⬝ᵥ g))⁻¹ • g) := by
+  unfold lscale; rw [smul_comm]
+
+/-- Soundness of `Tools.find_omega_wedge` (clause 2 of C09): the code normalises `g`; every returned
+`(ω, η)` rotates `gs = sin θ · g/|g|` (`C09.lscale`) with `Ry(-wedge) · Rz(ω)` onto
+`(-sin²θ, -sin 2θ sin η / 2, sin 2θ cos η / 2)`, and `ω ∈ (-π, π]`.
+Guards (places where Python divides): `g ≠ 0`, `cos wedge ≠ 0`, `sin 2θ ≠ 0`, and the code's `a ≠ 0`
+(`comega = (g₀ - b·somega)/a`; `a/2` is the x-component of `Rz(ω) gs`).  `0 < sin θ` is the physical
+range `0 < 2θ < 2π` (the code's `length = sqrt(2(1-cos 2θ))` is `2|sin θ|`). -/
+theorem wedge_sound (g : Fin 3 → ℝ) (twoth wedge : ℝ) (oms ets : List ℝ)
+    (hg : g ⬝ᵥ g ≠ 0) (hpos : 0 < Real.sin (twoth / 2)) (hs : Real.sin twoth ≠ 0)
+    (hcw : Real.cos wedge ≠ 0)
+    (ha0 : wedgeA (wedgeCe ((Real.sqrt (g ⬝ᵥ g))⁻¹ • g) twoth wedge) twoth wedge ≠ 0)
+    (h : Tools.find_omega_wedge g twoth wedge = (oms, ets)) :
+    oms.length = ets.length ∧
+    ∀ (i : ℕ) (h1 : i < oms.length) (h2 : i < ets.length),
+      ((Spec.Ry (-wedge) * Spec.Rz (oms[i])) *ᵥ lscale g twoth) 0 = -Real.sin (twoth / 2) ^ 2 ∧
+      ((Spec.Ry (-wedge) * Spec.Rz (oms[i])) *ᵥ lscale g twoth) 1 = -Real.sin twoth * Real.sin (ets[i]) / 2 ∧
+      ((Spec.Ry (-wedge) * Spec.Rz (oms[i])) *ᵥ lscale g twoth) 2 = Real.sin twoth * Real.cos (ets[i]) / 2 ∧
+      -Real.pi < oms[i] ∧ oms[i] ≤ Real.pi := by
+  rw [Tools_wedge_unfold] at h
+  rw [lscale_eq_smul_unit]
+  split_ifs at h with hce
+  · simp only [Prod.mk.injEq] at h
+    obtain ⟨rfl, rfl⟩ := h
+    simp
+  · simp only [Prod.mk.injEq] at h
+    obtain ⟨rfl, rfl⟩ := h
+    have hle := abs_le.mp (not_lt.mp hce)
+    have hc1 := Real.cos_arccos hle.1 hle.2
+    have hc2 : Real.cos (-(Real.arccos (wedgeCe ((Real.sqrt (g ⬝ᵥ g))⁻¹ • g) twoth wedge))) =
+        wedgeCe ((Real.sqrt (g ⬝ᵥ g))⁻¹ • g) twoth wedge := by rw [Real.cos_neg, hc1]
+    refine ⟨rfl, ?_⟩
+    intro i h1 h2
+    have hi : i = 0 ∨ i = 1 := by simp at h1; omega
+    rcases hi with rfl | rfl
+    · exact wedge_core (unit_norm g hg) hpos hs hcw hc1 ha0
+    · exact wedge_core (unit_norm g hg) hpos hs hcw hc2 ha0
+
+/-- Soundness of `Laue.find_omega_wedge` (clause 2 of C09, laue.py): identical code to tools.py. -/
+theorem laue_wedge_sound (g : Fin 3 → ℝ) (twoth wedge : ℝ) (oms ets : List ℝ)
+    (hg : g ⬝ᵥ g ≠ 0) (hpos : 0 < Real.sin (twoth / 2)) (hs : Real.sin twoth ≠ 0)
+    (hcw : Real.cos wedge ≠ 0)
+    (ha0 : wedgeA (wedgeCe ((Real.sqrt (g ⬝ᵥ g))⁻¹ • g) twoth wedge) twoth wedge ≠ 0)
+    (h : Laue.find_omega_wedge g twoth wedge = (oms, ets)) :
+    oms.length = ets.length ∧
+    ∀ (i : ℕ) (h1 : i < oms.length) (h2 : i < ets.length),
+      ((Spec.Ry (-wedge) * Spec.Rz (oms[i])) *ᵥ lscale g twoth) 0 = -Real.sin (twoth / 2) ^ 2 ∧
+      ((Spec.Ry (-wedge) * Spec.Rz (oms[i])) *ᵥ lscale g twoth) 1 = -Real.sin twoth * Real.sin (ets[i]) / 2 ∧
+      ((Spec.Ry (-wedge) * Spec.Rz (oms[i])) *ᵥ lscale g twoth) 2 = Real.sin twoth * Real.cos (ets[i]) / 2 ∧
+      -Real.pi < oms[i] ∧ oms[i] ≤ Real.pi :=
+  wedge_sound g twoth wedge oms ets hg hpos hs hcw ha0 h
+
+/-! ### agreement between the solvers -/
+
+lemma sin_eq_half (x : ℝ) : Real.sin x = 2 * Real.sin (x / 2) * Real.cos (x / 2) := by
+  rw [← Real.sin_two_mul]; congr 1; ring
+
+lemma quart_zero_tilt (ω : ℝ) :
+    Tools.quart_to_omega ((ω * 180) / Real.pi) 0 0 = Tools.form_omega_mat_general ω 0 0 := by
+  rw [Tools_quart_eq, Tools_fomg_eq, quaN_0, quaN_1, quaN_2]
+  ext i j
+  fin_cases i <;> fin_cases j <;>
+    simp [quatMat, Spec.Rx, Spec.Ry, Spec.Rz, Matrix.mul_apply, Fin.sum_univ_three,
+      cos_eq_one_sub ω, sin_eq_half ω]
+
+/-- Agreement (clause 4 of C09): with no tilt (`wx = wy = 0`) `find_omega_general` and `find_omega_quart`
+return identical lists (tools.py). -/
+theorem solvers_agree (g : Fin 3 → ℝ) (twoth : ℝ) :
+    Tools.find_omega_general g twoth 0 0 = Tools.find_omega_quart g twoth 0 0 := by
+  rw [Tools_general_unfold, Tools_quart_unfold]
+  have hA : quaA g 0 0 = genA g 0 0 := by
+    rw [genA_eq]; unfold quaA; rw [quaN_0, quaN_1, quaN_2]; simp
+  have hB : quaB g 0 0 = genB g 0 0 := by
+    rw [genB_eq]; unfold quaB; rw [quaN_1, quaN_2]; simp
+  have hC : quaC g 0 0 = genC g 0 0 := by
+    rw [genC_eq]; unfold quaC; rw [quaN_0, quaN_1, quaN_2]; simp
+  rw [hA, hB, hC]
+  simp only [quart_zero_tilt]
+
+/-- Agreement (clause 4, laue.py). -/
+theorem laue_solvers_agree (g : Fin 3 → ℝ) (twoth : ℝ) :
+    Laue.find_omega_general g twoth 0 0 = Laue.find_omega_quart g twoth 0 0 := by
+  rw [Laue_general_eq, Laue_quart_eq, solvers_agree]
+
+lemma Rx_zero : Spec.Rx 0 = 1 := by
+  ext i j; fin_cases i <;> fin_cases j <;> simp [Spec.Rx]
+
+lemma fomg_wedge (ω w : ℝ) :
+    Tools.form_omega_mat_general ω 0 (-w) = Spec.Ry (-w) * Spec.Rz ω := by
+  rw [Tools_fomg_eq, Rx_zero, Matrix.one_mul]
+
+/-- Agreement (clause 4 of C09): every `(ω, η)` returned by `find_omega_wedge g 2θ wedge` is a solution
+returned by `find_omega_general` at `(χ, wedge) = (0, -wedge)` for the rescaled vector
+`gs = sin θ · g/|g|`: same `ω`, and `η` equal modulo `2π` (equal sine and cosine; the wedge solver uses
+`±arccos`, which can return `-π` where `atan2` returns `π`).  The converse inclusion would need completeness
+of the wedge solver and is not proved here. `hab` (`g ∦ z`) is implied by `ha0` but stated for
+convenience. -/
+theorem wedge_agrees_general (g : Fin 3 → ℝ) (twoth wedge : ℝ) (oms ets omsG etsG : List ℝ)
+    (hg : g ⬝ᵥ g ≠ 0) (hpos : 0 < Real.sin (twoth / 2)) (hs : Real.sin twoth ≠ 0)
+    (hcw : Real.cos wedge ≠ 0)
+    (ha0 : wedgeA (wedgeCe ((Real.sqrt (g ⬝ᵥ g))⁻¹ • g) twoth wedge) twoth wedge ≠ 0)
+    (hab : (g 0 * Real.cos wedge) ^ 2 + (g 1 * Real.cos wedge) ^ 2 ≠ 0)
+    (h : Tools.find_omega_wedge g twoth wedge = (oms, ets))
+    (hG : Tools.find_omega_general (lscale g twoth) twoth 0 (-wedge) = some (omsG, etsG)) :
+    ∀ (i : ℕ) (h1 : i < oms.length) (h2 : i < ets.length),
+      ∃ (j : ℕ) (h3 : j < omsG.length) (h4 : j < etsG.length),
+        omsG[j] = oms[i] ∧ Real.cos (etsG[j]) = Real.cos (ets[i]) ∧ Real.sin (etsG[j]) = Real.sin (ets[i]) := by
+  intro i h1 h2
+  obtain ⟨w0, w1, w2, wlo, whi⟩ := (wedge_sound g twoth wedge oms ets hg hpos hs hcw ha0 h).2 i h1 h2
+  have hab' : (lscale g twoth 0 * Real.cos (-wedge)) ^ 2 + (lscale g twoth 1 * Real.cos (-wedge)) ^ 2 ≠ 0 := by
+    apply lscale_hab hg hs; rw [Real.cos_neg]; exact hab
+  have hnorm := lscale_norm g twoth hg
+  have hmem : oms[i] ∈ omsG := by
+    apply (general_complete (lscale g twoth) twoth 0 (-wedge) omsG etsG hab' hG).1 _ wlo whi
+    rw [fomg_wedge, w0, hnorm]
+  obtain ⟨j, h3, e⟩ := List.getElem_of_mem hmem
+  obtain ⟨hlen, hsound⟩ := general_sound (lscale g twoth) twoth 0 (-wedge) omsG etsG hnorm hs hab' hG
+  have h4 : j < etsG.length := hlen ▸ h3
+  obtain ⟨_, g1, g2, _, _⟩ := hsound j h3 h4
+  rw [e, fomg_wedge, w1] at g1
+  rw [e, fomg_wedge, w2] at g2
+  refine ⟨j, h3, h4, e, ?_, ?_⟩
+  · have := mul_left_cancel₀ hs (by linarith : Real.sin twoth * Real.cos (etsG[j]) = Real.sin twoth * Real.cos (ets[i]))
+    exact this
+  · have := mul_left_cancel₀ hs (by linarith : Real.sin twoth * Real.sin (etsG[j]) = Real.sin twoth * Real.sin (ets[i]))
+    exact this
+
+/-! ### `tth = tth2 (U B hkl)` -/
+
+/-- numerator / denominator under the square roots of `sintl`, as the code writes them -/
+def sintlP1 (unit_cell : Fin 6 → ℝ) (hkl : Fin 3 → ℝ) : ℝ :=
+  let a : ℝ := (unit_cell 0)
+  let b : ℝ := (unit_cell 1)
+  let c : ℝ := (unit_cell 2)
+  let calp : ℝ := (Real.cos (((unit_cell 3) * Real.pi) / 180))
+  let cbet : ℝ := (Real.cos (((unit_cell 4) * Real.pi) / 180))
+  let cgam : ℝ := (Real.cos (((unit_cell 5) * Real.pi) / 180))
+  let h : ℝ := (hkl 0)
+  let k : ℝ := (hkl 1)
+  let l : ℝ := (hkl 2)
+  ((((((((h * h) / (a ^ 2)) * (1 - (calp ^ 2))) + (((k * k) / (b ^ 2)) * (1 - (cbet ^ 2)))) + (((l * l) / (c ^ 2)) * (1 - (cgam ^ 2)))) + ((((2 * h) * k) * ((calp * cbet) - cgam)) / (a * b))) + ((((2 * h) * l) * ((calp * cgam) - cbet)) / (a * c))) + ((((2 * k) * l) * ((cbet * cgam) - calp)) / (b * c)))
+def sintlP2 (unit_cell : Fin 6 → ℝ) : ℝ :=
+  let calp : ℝ := (Real.cos (((unit_cell 3) * Real.pi) / 180))
+  let cbet : ℝ := (Real.cos (((unit_cell 4) * Real.pi) / 180))
+  let cgam : ℝ := (Real.cos (((unit_cell 5) * Real.pi) / 180))
+  ((1 - (((calp ^ 2) + (cbet ^ 2)) + (cgam ^ 2))) + (((2 * calp) * cbet) * cgam))
+
+lemma sintl_eq (cell : Fin 6 → ℝ) (hkl : Fin 3 → ℝ) :
+    Tools.sintl cell hkl = Real.sqrt (sintlP1 cell hkl) / (2 * Real.sqrt (sintlP2 cell)) := rfl
+
+lemma sintlP2_eq (cell : Fin 6 → ℝ) : sintlP2 cell = Spec.gramD cell := by
+  unfold sintlP2 Spec.gramD Spec.rad; ring
+
+lemma cell_volume_eq (cell : Fin 6 → ℝ) :
+    Tools.cell_volume cell = cell 0 * cell 1 * cell 2 * Real.sqrt (sintlP2 cell) := by
+  unfold Tools.cell_volume sintlP2
+  simp only []
+  congr 2
+  ring
+
+/-- `form_b_mat` with the reciprocal-length convention factor `f` (`2π` in tools.py, `1` in laue.py) -/
+def bmat (f : ℝ) (unit_cell : Fin 6 → ℝ) : Matrix (Fin 3) (Fin 3) ℝ :=
+  let a : ℝ := (unit_cell 0)
+  let b : ℝ := (unit_cell 1)
+  let c : ℝ := (unit_cell 2)
+  let calp : ℝ := (Real.cos (((unit_cell 3) * Real.pi) / 180))
+  let cbet : ℝ := (Real.cos (((unit_cell 4) * Real.pi) / 180))
+  let cgam : ℝ := (Real.cos (((unit_cell 5) * Real.pi) / 180))
+  let salp : ℝ := (Real.sin (((unit_cell 3) * Real.pi) / 180))
+  let sbet : ℝ := (Real.sin (((unit_cell 4) * Real.pi) / 180))
+  let sgam : ℝ := (Real.sin (((unit_cell 5) * Real.pi) / 180))
+  let V : ℝ := (Tools.cell_volume unit_cell)
+  let astar : ℝ := ((((f * b) * c) * salp) / V)
+  let bstar : ℝ := ((((f * a) * c) * sbet) / V)
+  let cstar : ℝ := ((((f * a) * b) * sgam) / V)
+  let sbetstar : ℝ := (V / ((((a * b) * c) * salp) * sgam))
+  let sgamstar : ℝ := (V / ((((a * b) * c) * salp) * sbet))
+  let cbetstar : ℝ := (((calp * cgam) - cbet) / (salp * sgam))
+  let cgamstar : ℝ := (((calp * cbet) - cgam) / (salp * sbet))
+  (!![astar, (bstar * cgamstar), (cstar * cbetstar); (0 : ℝ), (bstar * sgamstar), (((-cstar) * sbetstar) * calp); (0 : ℝ), (0 : ℝ), ((cstar * sbetstar) * salp)] : (Matrix (Fin 3) (Fin 3) ℝ))
+
+lemma Tools_bmat (cell : Fin 6 → ℝ) : Tools.form_b_mat cell = bmat (2 * Real.pi) cell := rfl
+
+lemma Laue_bmat (cell : Fin 6 → ℝ) : Laue.form_b_mat cell = bmat 1 cell := by
+  unfold bmat Laue.form_b_mat
+  simp only [one_mul]
+  rfl
+
+lemma B_hkl_normsq (f : ℝ) (hf : f ≠ 0) (cell : Fin 6 → ℝ) (hkl : Fin 3 → ℝ) (hc : Spec.ValidCell cell) :
+    (bmat f cell *ᵥ hkl) ⬝ᵥ (bmat f cell *ᵥ hkl) =
+      f ^ 2 * (sintlP1 cell hkl / sintlP2 cell) := by
+  have hD : 0 < sintlP2 cell := by rw [sintlP2_eq]; exact hc.gram
+  have hR2 : Real.sqrt (sintlP2 cell) ^ 2 = sintlP2 cell := Real.sq_sqrt hD.le
+  have hR : Real.sqrt (sintlP2 cell) ≠ 0 := (Real.sqrt_pos.mpr hD).ne'
+  have ha := hc.a_pos.ne'
+  have hb := hc.b_pos.ne'
+  have hcc := hc.c_pos.ne'
+  have hsa := (Spec.sin_rad_pos hc.al).ne'
+  have hsb := (Spec.sin_rad_pos hc.be).ne'
+  have hsg := (Spec.sin_rad_pos hc.ga).ne'
+  have hsca := Real.sin_sq_add_cos_sq (Spec.rad (cell 3))
+  unfold Spec.rad at hsa hsb hsg hsca
+  have e0 : (bmat f cell *ᵥ hkl) 0 =
+      f / (Real.sqrt (sintlP2 cell) * Real.sin (cell 3 * Real.pi / 180)) *
+        (Real.sin (cell 3 * Real.pi / 180) ^ 2 * (hkl 0 / cell 0)
+          + (Real.cos (cell 3 * Real.pi / 180) * Real.cos (cell 4 * Real.pi / 180) - Real.cos (cell 5 * Real.pi / 180)) * (hkl 1 / cell 1)
+          + (Real.cos (cell 3 * Real.pi / 180) * Real.cos (cell 5 * Real.pi / 180) - Real.cos (cell 4 * Real.pi / 180)) * (hkl 2 / cell 2)) := by
+    simp only [bmat, cell_volume_eq, Matrix.mulVec, dotProduct, Fin.sum_univ_three]
+    generalize Real.sin (cell 3 * Real.pi / 180) = sa at *
+    generalize Real.sin (cell 4 * Real.pi / 180) = sb at *
+    generalize Real.sin (cell 5 * Real.pi / 180) = sg at *
+    generalize Real.cos (cell 3 * Real.pi / 180) = ca at *
+    generalize Real.cos (cell 4 * Real.pi / 180) = cb at *
+    generalize Real.cos (cell 5 * Real.pi / 180) = cg at *
+    generalize Real.sqrt (sintlP2 cell) = R at *
+    simp
+    field_simp
+    try ring
+  have e1 : (bmat f cell *ᵥ hkl) 1 =
+      f / Real.sin (cell 3 * Real.pi / 180) *
+        (hkl 1 / cell 1 - Real.cos (cell 3 * Real.pi / 180) * (hkl 2 / cell 2)) := by
+    simp only [bmat, cell_volume_eq, Matrix.mulVec, dotProduct, Fin.sum_univ_three]
+    generalize Real.sin (cell 3 * Real.pi / 180) = sa at *
+    generalize Real.sin (cell 4 * Real.pi / 180) = sb at *
+    generalize Real.sin (cell 5 * Real.pi / 180) = sg at *
+    generalize Real.cos (cell 3 * Real.pi / 180) = ca at *
+    generalize Real.cos (cell 4 * Real.pi / 180) = cb at *
+    generalize Real.cos (cell 5 * Real.pi / 180) = cg at *
+    generalize Real.sqrt (sintlP2 cell) = R at *
+    simp
+    field_simp
+    try ring
+  have e2 : (bmat f cell *ᵥ hkl) 2 = f * (hkl 2 / cell 2) := by
+    simp only [bmat, cell_volume_eq, Matrix.mulVec, dotProduct, Fin.sum_univ_three]
+    generalize Real.sin (cell 3 * Real.pi / 180) = sa at *
+    generalize Real.sin (cell 4 * Real.pi / 180) = sb at *
+    generalize Real.sin (cell 5 * Real.pi / 180) = sg at *
+    generalize Real.cos (cell 3 * Real.pi / 180) = ca at *
+    generalize Real.cos (cell 4 * Real.pi / 180) = cb at *
+    generalize Real.cos (cell 5 * Real.pi / 180) = cg at *
+    generalize Real.sqrt (sintlP2 cell) = R at *
+    simp
+    field_simp
+    try ring
+  simp only [dotProduct, Fin.sum_univ_three]
+  rw [e0, e1, e2]
+  have hP1 : sintlP1 cell hkl =
+      (hkl 0 / cell 0) ^ 2 * (1 - Real.cos (cell 3 * Real.pi / 180) ^ 2)
+      + (hkl 1 / cell 1) ^ 2 * (1 - Real.cos (cell 4 * Real.pi / 180) ^ 2)
+      + (hkl 2 / cell 2) ^ 2 * (1 - Real.cos (cell 5 * Real.pi / 180) ^ 2)
+      + 2 * (hkl 0 / cell 0) * (hkl 1 / cell 1) * (Real.cos (cell 3 * Real.pi / 180) * Real.cos (cell 4 * Real.pi / 180) - Real.cos (cell 5 * Real.pi / 180))
+      + 2 * (hkl 0 / cell 0) * (hkl 2 / cell 2) * (Real.cos (cell 3 * Real.pi / 180) * Real.cos (cell 5 * Real.pi / 180) - Real.cos (cell 4 * Real.pi / 180))
+      + 2 * (hkl 1 / cell 1) * (hkl 2 / cell 2) * (Real.cos (cell 4 * Real.pi / 180) * Real.cos (cell 5 * Real.pi / 180) - Real.cos (cell 3 * Real.pi / 180)) := by
+    unfold sintlP1; simp only []; ring
+  have hD0 : sintlP2 cell = 1 - Real.cos (cell 3 * Real.pi / 180) ^ 2 - Real.cos (cell 4 * Real.pi / 180) ^ 2
+      - Real.cos (cell 5 * Real.pi / 180) ^ 2
+      + 2 * Real.cos (cell 3 * Real.pi / 180) * Real.cos (cell 4 * Real.pi / 180) * Real.cos (cell 5 * Real.pi / 180) := by
+    unfold sintlP2; ring
+  generalize Real.sqrt (sintlP2 cell) = R at *
+  rw [hP1, ← hR2]
+  have hD' := hR2.trans hD0
+  generalize Real.sin (cell 3 * Real.pi / 180) = sa at *
+  generalize Real.cos (cell 3 * Real.pi / 180) = ca at *
+  generalize Real.cos (cell 4 * Real.pi / 180) = cb at *
+  generalize Real.cos (cell 5 * Real.pi / 180) = cg at *
+  generalize hkl 0 / cell 0 = p at *
+  generalize hkl 1 / cell 1 = q at *
+  generalize hkl 2 / cell 2 = r at *
+  have main : (sa ^ 2 * p + (ca * cb - cg) * q + (ca * cg - cb) * r) ^ 2 + R ^ 2 * (q - ca * r) ^ 2
+      + R ^ 2 * sa ^ 2 * r ^ 2 =
+      sa ^ 2 * (p ^ 2 * (1 - ca ^ 2) + q ^ 2 * (1 - cb ^ 2) + r ^ 2 * (1 - cg ^ 2) + 2 * p * q * (ca * cb - cg)
+        + 2 * p * r * (ca * cg - cb) + 2 * q * r * (cb * cg - ca)) := by
+    rw [hD']
+    linear_combination (-ca^2*r^2 + 2*ca*cb*cg*r^2 + 2*ca*q*r + cb^2*q^2 - cb^2*r^2 - 2*cb*cg*q*r + p^2*sa^2 - q^2) * hsca
+  calc _ = (f) ^ 2 / (R ^ 2 * sa ^ 2) * ((sa ^ 2 * p + (ca * cb - cg) * q + (ca * cg - cb) * r) ^ 2
+        + R ^ 2 * (q - ca * r) ^ 2 + R ^ 2 * sa ^ 2 * r ^ 2) := by field_simp
+    _ = _ := by rw [main]; field_simp
+
+/-- `tth(cell, hkl, λ) = tth2(U·B·hkl, λ)` (clause 5 of C09, tools.py) for a valid cell and a rotation `U`
+(`B = form_b_mat cell`, carrying the factor 2π that `tth2` divides out). -/
+theorem tth_eq_tth2 (cell : Fin 6 → ℝ) (hkl : Fin 3 → ℝ) (lam : ℝ) (U : Matrix (Fin 3) (Fin 3) ℝ)
+    (hc : Spec.ValidCell cell) (hU : Spec.IsRot U) :
+    Tools.tth2 (U *ᵥ (Tools.form_b_mat cell *ᵥ hkl)) lam = Tools.tth cell hkl lam := by
+  have hD : 0 < sintlP2 cell := by rw [sintlP2_eq]; exact hc.gram
+  have hR : Real.sqrt (sintlP2 cell) ≠ 0 := (Real.sqrt_pos.mpr hD).ne'
+  have hpi := Real.pi_pos
+  unfold Tools.tth2 Tools.tth
+  simp only []
+  rw [rot_norm hU.1, Tools_bmat, B_hkl_normsq _ (by positivity) cell hkl hc, sintl_eq,
+    Real.sqrt_mul (sq_nonneg _), Real.sqrt_sq (by positivity), Real.sqrt_div' _ hD.le]
+  congr 2
+  field_simp
+  ring
+
+/-- `tth(cell, hkl, λ) = tth2(U·B·hkl, λ)` (clause 5 of C09, laue.py; there neither `B` nor `tth2` carries 2π). -/
+theorem laue_tth_eq_tth2 (cell : Fin 6 → ℝ) (hkl : Fin 3 → ℝ) (lam : ℝ) (U : Matrix (Fin 3) (Fin 3) ℝ)
+    (hc : Spec.ValidCell cell) (hU : Spec.IsRot U) :
+    Laue.tth2 (U *ᵥ (Laue.form_b_mat cell *ᵥ hkl)) lam = Laue.tth cell hkl lam := by
+  have hD : 0 < sintlP2 cell := by rw [sintlP2_eq]; exact hc.gram
+  have hR : Real.sqrt (sintlP2 cell) ≠ 0 := (Real.sqrt_pos.mpr hD).ne'
+  unfold Laue.tth2 Laue.tth
+  simp only []
+  rw [rot_norm hU.1, Laue_bmat, B_hkl_normsq _ one_ne_zero cell hkl hc,
+    show Laue.sintl cell hkl = Real.sqrt (sintlP1 cell hkl) / (2 * Real.sqrt (sintlP2 cell)) from rfl,
+    one_pow, one_mul, Real.sqrt_div' _ hD.le]
+  congr 2
+  by_cases h1 : Real.sqrt (sintlP1 cell hkl) = 0
+  · rw [h1]; simp
+  · field_simp
+
+lemma sqrt_scale {k : ℝ} (hk : 0 < k) (a b c : ℝ) :
+    Real.sqrt (k * a * (k * a) + k * b * (k * b) - k * c * (k * c)) = k * Real.sqrt (a * a + b * b - c * c) := by
+  rw [show k * a * (k * a) + k * b * (k * b) - k * c * (k * c) = k ^ 2 * (a * a + b * b - c * c) by ring,
+    Real.sqrt_mul (sq_nonneg k), Real.sqrt_sq hk.le]
+
+lemma frac_scale {k : ℝ} (hk : 0 < k) (x y x' y' : ℝ) (hx : x' = (k * k) * x) (hy : y' = (k * k) * y) :
+    x' / y' = x / y := by
+  rw [hx, hy, mul_div_mul_left _ _ (mul_pos hk hk).ne']
+
+lemma om1_scale {k : ℝ} (hk : 0 < k) (a b c : ℝ) : om1 (k * a) (k * b) (k * c) = om1 a b c := by
+  unfold om1
+  rw [sqrt_scale hk]
+  congr 1
+  · exact frac_scale hk _ _ _ _ (by ring) (by ring)
+  · exact frac_scale hk _ _ _ _ (by ring) (by ring)
+
+lemma om2_scale {k : ℝ} (hk : 0 < k) (a b c : ℝ) : om2 (k * a) (k * b) (k * c) = om2 a b c := by
+  unfold om2
+  rw [sqrt_scale hk]
+  congr 1
+  · exact frac_scale hk _ _ _ _ (by ring) (by ring)
+  · exact frac_scale hk _ _ _ _ (by ring) (by ring)
+
+/-- Agreement (clause 4 of C09): for `|g| = sin θ > 0` and strictly positive discriminant, the omegas of
+`find_omega` are exactly (same order) the omegas of `find_omega_general` with zero tilt. -/
+theorem plain_agrees_general (g : Fin 3 → ℝ) (twoth : ℝ) (hpos : 0 < Real.sin (twoth / 2))
+    (hg : g ⬝ᵥ g = Real.sin (twoth / 2) ^ 2)
+    (hd : plA g * plA g + plB g * plB g - plC twoth * plC twoth > 0) :
+    ∃ ets : List ℝ, Tools.find_omega_general g twoth 0 0 = some (Tools.find_omega g twoth, ets) := by
+  have hG : Real.sqrt (g ⬝ᵥ g) = Real.sin (twoth / 2) := by rw [hg, Real.sqrt_sq hpos.le]
+  have hs0 : Real.sin (twoth / 2) ≠ 0 := hpos.ne'
+  have eA : genA g 0 0 = Real.sin (twoth / 2) * plA g := by
+    rw [genA_eq]; unfold plA; rw [hG]; field_simp; simp
+  have eB : genB g 0 0 = Real.sin (twoth / 2) * plB g := by
+    rw [genB_eq]; unfold plB; rw [hG]; field_simp; simp
+  have eC : genC g 0 0 = Real.sin (twoth / 2) * plC twoth := by
+    rw [genC_eq, plC_eq twoth hs0, abs_of_pos hpos, hg]; simp; ring
+  have hguard : |((g ⬝ᵥ g) - ((Real.sin (twoth / 2)) ^ 2))| < (1e-9 : ℝ) := by
+    rw [hg, sub_self, abs_zero]; norm_num
+  have hdG : ¬ (genA g 0 0 * genA g 0 0 + genB g 0 0 * genB g 0 0 - genC g 0 0 * genC g 0 0 < 0) := by
+    rw [eA, eB, eC]
+    have : 0 < Real.sin (twoth / 2) ^ 2 * (plA g * plA g + plB g * plB g - plC twoth * plC twoth) :=
+      mul_pos (by positivity) hd
+    nlinarith
+  rw [Tools_general_unfold, Tools_plain_body, plainBody_eq, if_pos hd]
+  unfold solverOut
+  rw [if_pos hguard, if_neg hdG, eA, eB, eC, om1_scale hpos, om2_scale hpos]
+  exact ⟨_, rfl⟩
+
+/-! ### the hypotheses are satisfiable on concrete inputs -/
+
+/-- `general_sound`/`general_complete` are not vacuous: `g = (√2/2, 0, 0)`, `2θ = π/2`, no tilt gives two solutions. -/
+example : ∃ (g : Fin 3 → ℝ) (twoth wx wy : ℝ),
+    g ⬝ᵥ g = Real.sin (twoth / 2) ^ 2 ∧ Real.sin twoth ≠ 0 ∧
+    (g 0 * Real.cos wy) ^ 2 + (g 1 * Real.cos wy) ^ 2 ≠ 0 ∧
+    ∃ oms ets : List ℝ, Tools.find_omega_general g twoth wx wy = some (oms, ets) ∧ oms.length = 2 := by
+  have h2 : Real.sqrt 2 ^ 2 = 2 := Real.sq_sqrt (by norm_num)
+  have h4 : Real.sin (Real.pi / 2 / 2) = Real.sqrt 2 / 2 := by
+    rw [show Real.pi / 2 / 2 = Real.pi / 4 by ring, Real.sin_pi_div_four]
+  have hg : (![Real.sqrt 2 / 2, 0, 0] : Fin 3 → ℝ) ⬝ᵥ ![Real.sqrt 2 / 2, 0, 0] = Real.sin (Real.pi / 2 / 2) ^ 2 := by
+    rw [h4]; simp [dotProduct, Fin.sum_univ_three]; ring
+  have hgg : (![Real.sqrt 2 / 2, 0, 0] : Fin 3 → ℝ) ⬝ᵥ ![Real.sqrt 2 / 2, 0, 0] = 1 / 2 := by
+    simp [dotProduct, Fin.sum_univ_three]; nlinarith
+  have hguard : |(((![Real.sqrt 2 / 2, 0, 0] : Fin 3 → ℝ) ⬝ᵥ ![Real.sqrt 2 / 2, 0, 0]) - ((Real.sin (Real.pi / 2 / 2)) ^ 2))| < (1e-9 : ℝ) := by
+    rw [hg, sub_self, abs_zero]; norm_num
+  have hd : ¬ (genA ![Real.sqrt 2 / 2, 0, 0] 0 0 * genA ![Real.sqrt 2 / 2, 0, 0] 0 0
+      + genB ![Real.sqrt 2 / 2, 0, 0] 0 0 * genB ![Real.sqrt 2 / 2, 0, 0] 0 0
+      - genC ![Real.sqrt 2 / 2, 0, 0] 0 0 * genC ![Real.sqrt 2 / 2, 0, 0] 0 0 < 0) := by
+    rw [genA_eq, genB_eq, genC_eq, hgg]; simp; nlinarith
+  refine ⟨![Real.sqrt 2 / 2, 0, 0], Real.pi / 2, 0, 0, hg, by simp, ?_, ?_⟩
+  · simp
+  · rw [Tools_general_unfold]; unfold solverOut; rw [if_pos hguard, if_neg hd]
+    exact ⟨_, _, rfl, rfl⟩
+
+/-- the guards of `wedge_sound` are satisfiable: `g = (1, 0, 0)`, `2θ = π/2`, `wedge = 0` (`coseta = 0`, `a = -1`). -/
+example : ∃ (g : Fin 3 → ℝ) (twoth wedge : ℝ),
+    g ⬝ᵥ g ≠ 0 ∧ 0 < Real.sin (twoth / 2) ∧ Real.sin twoth ≠ 0 ∧ Real.cos wedge ≠ 0 ∧
+    wedgeA (wedgeCe ((Real.sqrt (g ⬝ᵥ g))⁻¹ • g) twoth wedge) twoth wedge ≠ 0 := by
+  have hgg : (![1, 0, 0] : Fin 3 → ℝ) ⬝ᵥ ![1, 0, 0] = 1 := by simp [dotProduct, Fin.sum_univ_three]
+  refine ⟨![1, 0, 0], Real.pi / 2, 0, by rw [hgg]; norm_num, ?_, by simp, by simp, ?_⟩
+  · apply Real.sin_pos_of_pos_of_lt_pi <;> linarith [Real.pi_pos]
+  · rw [hgg]; simp [wedgeA, wedgeCe]
 
 end C09
